@@ -78,7 +78,7 @@ impl Leaf for Wide {
         self.inner.val
     }
     fn mk(val: u32, owner: u8) -> Self {
-        Wide { pad: 0xA5, inner: Tok::new(val, owner) }
+        Wide::wrap(Tok::new(val, owner))
     }
 }
 impl Leaf for tok::Plain {
@@ -143,7 +143,7 @@ impl Item for Tok {
     }
 }
 
-/// A second element shape (swarm dimension "element layout"): 16-byte aligned, with padding
+/// A second element shape (swarm dimension "element layout"): large (256 bytes), 16-byte aligned, with padding
 /// bytes in front of the tracked payload, so that code which assumes a particular element size,
 /// alignment or field offset reads something the ledger does not recognise. All callbacks
 /// delegate to the inner `Tok`, which reports to the ledger as usual.
@@ -151,6 +151,21 @@ impl Item for Tok {
 pub struct Wide {
     pub pad: u8,
     pub inner: Tok,
+    /// makes the element large (256 bytes in all): code that picks a different strategy for
+    /// elements above some size takes that branch; the last byte is a sentinel checked on every read
+    pub tail: [u8; WIDE_TAIL],
+}
+pub const WIDE_TAIL: usize = 240;
+const WIDE_TAIL_INIT: [u8; WIDE_TAIL] = {
+    let mut t = [0x3Cu8; WIDE_TAIL];
+    t[WIDE_TAIL - 1] = 0x5A;
+    t
+};
+impl Wide {
+    #[inline]
+    pub fn wrap(inner: Tok) -> Wide {
+        Wide { pad: 0xA5, inner, tail: WIDE_TAIL_INIT }
+    }
 }
 impl Debug for Wide {
     fn fmt(&self, f: &mut std::fmt::Formatter<'_>) -> std::fmt::Result {
@@ -174,26 +189,26 @@ impl PartialEq for Wide {
 }
 impl Default for Wide {
     fn default() -> Wide {
-        Wide { pad: 0xA5, inner: Tok::default() }
+        Wide::wrap(Tok::default())
     }
 }
 impl Clone for Wide {
     fn clone(&self) -> Wide {
-        Wide { pad: self.pad, inner: self.inner.clone() }
+        Wide { pad: self.pad, inner: self.inner.clone(), tail: self.tail }
     }
 }
 impl Item for Wide {
     const W: usize = 1;
     #[inline]
     fn grp(&self) -> Grp {
-        if self.pad != 0xA5 {
+        if self.pad != 0xA5 || self.tail[WIDE_TAIL - 1] != 0x5A || self.tail[0] != 0x3C {
             tok::raise(tok::V2_UNKNOWN_ELEMENT, "an element's padding byte was overwritten or read at the wrong offset (torn read)".to_string());
         }
         tok::check_read("read", self.inner.id, self.inner.val);
         Grp::one(self.inner.id)
     }
     fn fresh(pos: u32, owner: u8) -> Self {
-        Wide { pad: 0xA5, inner: Tok::new(pos * 4, owner) }
+        Wide::wrap(Tok::new(pos * 4, owner))
     }
     type Leaf = Wide;
     type Inner = NoInner<Wide>;
